@@ -1024,6 +1024,16 @@ func ruleIntGuard2(c *Ctx) {
 							return true
 						}
 						p := st[len(st)-2]
+						// anywhere inside the message arguments of an assertion (its text, however it is formatted)
+						for k := len(st) - 2; k >= 0; k-- {
+							if ac, ok := st[k].(*ast.CallExpr); ok && c.calleeName(ac) == "util.Assert" && len(ac.Args) > 1 {
+								for _, a := range ac.Args[1:] {
+									if a.Pos() <= id.Pos() && id.End() <= a.End() {
+										return true
+									}
+								}
+							}
+						}
 						switch pp := p.(type) {
 						case *ast.BinaryExpr:
 							switch pp.Op {
